@@ -4,10 +4,14 @@
    is itself a pipeline, it covers every boundary between two operators of a (possibly nested) flat
    pipeline.  C03_inner_* : the trace that group_by, split, time_split and roll (window = stride) feed
    to their inner pipeline is well-formed whenever the outer trace is (stated on the heads alone, for
-   any inner pipeline); for the sliding roll (window <> stride) the same fact is discharged inside
-   roll_refines (allowed_batches, ring_free) and not restated. *)
+   any inner pipeline); C03_inner_sliding_roll : the same for the sliding roll (window <> stride), proved by
+   instantiating the inner machine with a protocol monitor and reading its verdict out of roll_refines.
+   C03_every_boundary : all of it together - the trace at EVERY boundary of EVERY pipeline (after each
+   operator, at the head of each inner pipeline and tee branch, to any nesting depth), as computed by
+   Boundaries.bnd_pipe, is well-formed.  bnd_pipe is compared boundary by boundary with the recording
+   taps of the real code by the correspondence check (MCBnd). *)
 From Coq Require Import List ZArith.
-From RxVerif Require Import Mux.Val Mux.Sim Mux.SimExt Mux.Seg Mux.Ops Mux.Syntax Mux.ConfineProofs Mux.MasterProofs Mux.InnerProtocolProofs.
+From RxVerif Require Import Mux.Val Mux.Sim Mux.SimExt Mux.Seg Mux.Ops Mux.Syntax Mux.ConfineProofs Mux.MasterProofs Mux.InnerProtocolProofs Mux.Boundaries Mux.BoundaryProofs.
 Import ListNotations.
 
 Theorem C03_output_protocol : forall (P : list op) (t : list iev), wf t ->
@@ -43,6 +47,36 @@ Theorem C03_inner_group_by_feed : forall (V G : Type) (geq : forall a b : G, {a 
   fst (step (group_m V G geq km I) (st, si) e) = (group_next V G geq km st e, fst (feed I si (group_feed V G geq km st e))).
 Proof. exact group_m_feeds. Qed.
 Print Assumptions C03_inner_group_by_feed.
+
+Theorem C03_inner_sliding_roll : forall (V : Type) (w s d : nat), 1 <= s -> w <= d * s -> 1 <= d -> 1 <= w ->
+  forall t : list (ev V), allowed_seq [] t -> allowed_seq [] (roll_inner_trace V w s d ([], []) t).
+Proof. exact roll_inner_wf. Qed.
+Print Assumptions C03_inner_sliding_roll.
+Theorem C03_inner_sliding_roll_feed : forall (V : Type) (w s d : nat) (I : machine V) st si e,
+  fst (step (roll_m V I w s d) (st, si) e) = (roll_next V w s d st e, fst (feed I si (roll_feed V w s d st e))).
+Proof. exact roll_m_feeds. Qed.
+Print Assumptions C03_inner_sliding_roll_feed.
+
+Theorem C03_every_boundary : forall (P : list op) (t : list iev), wf t -> Forall wf (bnd_pipe P t).
+Proof. exact every_boundary_wf. Qed.
+Print Assumptions C03_every_boundary.
+(* consecutive operators see each other's flat output: the boundary after a is the input of b *)
+Theorem C03_boundary_composition : forall (a b : br_) (t : list iev),
+  flat_run (compose_b a b) t = flat_run b (flat_run a t).
+Proof. exact flat_run_compose. Qed.
+Print Assumptions C03_boundary_composition.
+
+Example C03_boundaries_example :
+  bnd_pipe [ORoll 2 1 [OScan A2Count (VInt 0) TInt true None]]
+           [Create [4]; Next [4] (It (VInt 7)); Next [4] (It (VInt 8)); Done [4]]%nat
+  = [ (* after count, inside the roll *)
+      [Create [8; 4]; Create [9; 4]; Next [8; 4] (It (VInt 2)); Done [8; 4]; Next [9; 4] (It (VInt 1)); Done [9; 4]];
+      (* what roll feeds to its inner pipeline *)
+      [Create [8; 4]; Next [8; 4] (It (VInt 7)); Create [9; 4]; Next [8; 4] (It (VInt 8)); Done [8; 4];
+       Next [9; 4] (It (VInt 8)); Done [9; 4]];
+      (* after the roll *)
+      [Create [4]; Next [4] (It (VInt 2)); Next [4] (It (VInt 1)); Done [4]] ]%nat.
+Proof. vm_compute. reflexivity. Qed.
 
 Example C03_example :
   concat (raw_run [OGroup (FMod 2) [OScan A2Count (VInt 0) TInt true None]]
